@@ -124,11 +124,12 @@ def sniffCaughtD (d : Doc) (includeDefault : Bool) : Except Err (Option Cps) :=
   | .error .attributeError => .ok none
   | .error e => .error e
 
-/-- `:611-622` -/
+/-- `:606-622` (`sniffable = len(text) >= 4`: characters of a `str`, bytes of a `bytes` document) -/
 def xmlOfD (tt : Nat) (d : Doc) : Except Err (Option Cps) :=
-  match (if tt == C20.XML_APPLICATION_TYPE then sniffCaughtD d true else .ok none) with
+  let sniffable := decide (4 ≤ d.asText.length)
+  match (if tt == C20.XML_APPLICATION_TYPE && sniffable then sniffCaughtD d true else .ok none) with
   | .error e => .error e
-  | .ok x1 => if tt == C20.HTML_TEXT_TYPE then sniffCaughtD d false else .ok x1
+  | .ok x1 => if tt == C20.HTML_TEXT_TYPE && sniffable then sniffCaughtD d false else .ok x1
 
 /-- `:625-626`: the meta stage runs for text/html and other text types only -/
 def metaOfD (L : Lib) (tt : Nat) (d : Doc) : Except Err (Option Cps × Option Cps) :=
